@@ -6,8 +6,11 @@ package main
 
 import (
 	"context"
+	"errors"
 	"fmt"
 	"time"
+
+	"github.com/failsafe-go/failsafe-go/timeout"
 
 	"github.com/failsafe-go/failsafe-go/verifrt/vcontext"
 	"github.com/failsafe-go/failsafe-go/verifrt/vrt"
@@ -36,6 +39,54 @@ func c14Scenarios(tier string) []*Scenario {
 		for _, x := range env.Exes {
 			if !x.Completed {
 				return fmt.Sprintf("execution %d did not complete", x.ID)
+			}
+		}
+		// each execution still gets what the policies promise. An outermost timeout reports ErrExceeded
+		// exactly for the executions whose timeout it declared exceeded:
+		if env.Stack[0].Kind == KTimeout {
+			exceeded := 0
+			for _, x := range env.Exes {
+				if errors.Is(x.ResE, timeout.ErrExceeded) {
+					exceeded++
+				}
+			}
+			if fired := env.quietCount(0, "timeout"); fired != exceeded {
+				return fmt.Sprintf("OnTimeoutExceeded fired %d times, %d executions returned ErrExceeded", fired, exceeded)
+			}
+		}
+		// and a shared bursty limiter never lets more through than its rate: every invocation of the
+		// function went through it, so did every permit handed out by the standalone API
+		for li, s := range env.Stack {
+			if s.Kind != KLimiter || s.Smooth {
+				continue
+			}
+			var at []int64
+			for _, g := range env.Grants {
+				if int(g[0]) == li {
+					at = append(at, g[1])
+				}
+			}
+			multiplies := false // a retry or hedge inside the limiter makes several invocations under one permit
+			for _, in := range env.Stack[li+1:] {
+				multiplies = multiplies || in.Kind == KRetry || in.Kind == KHedge
+			}
+			for _, x := range env.Exes {
+				for k, inv := range x.Invs {
+					if k == 0 || !multiplies {
+						at = append(at, inv.Start)
+					}
+				}
+			}
+			for _, T := range at {
+				n := 0
+				for _, u := range at {
+					if u <= T {
+						n++
+					}
+				}
+				if limit := int(s.Permits) * int(T/int64(s.Period)+1); n > limit {
+					return fmt.Sprintf("%d permits were usable by t=%d, the limiter allows %d per %v (%d by then)", n, T, s.Permits, s.Period, limit)
+				}
 			}
 		}
 		return ""
@@ -67,8 +118,11 @@ func c14Scenarios(tier string) []*Scenario {
 					bh.ReleasePermit()
 				}
 			case KLimiter:
-				env.Limiters[i].TryAcquirePermit()
-				env.Limiters[i].ReservePermit()
+				if env.Limiters[i].TryAcquirePermit() {
+					env.addGrant(i, vrt.Elapsed())
+				}
+				w := env.Limiters[i].ReservePermit()
+				env.addGrant(i, vrt.Elapsed()+int64(w))
 			}
 		}
 	}
@@ -107,7 +161,7 @@ func init() {
 		Race:      true,
 		Technique: "stateless schedule exploration of the instrumented library in a race-detector build whose baton hand-offs are invisible to the detector: every explored schedule is judged by happens-before, not by the failure manifesting",
 		Rule: "harness family: every policy alone and every ordered pair of the eight policies (72 stacks) with a sync and an async execution plus a standalone API caller on the shared instances; hedge over each policy and timeout firing during each policy (the library's own goroutines); " +
-			"async runner + Cancel; every schedule within deviation bound 1 (thorough 2); a schedule fails on a race report, panic or deadlock; distinct = distinct observation logs",
+			"async runner + Cancel; every schedule within deviation bound 1 (thorough 2); a schedule fails on a race report, panic, deadlock, an execution that does not complete, an outermost timeout whose OnTimeoutExceeded count differs from the executions that returned ErrExceeded, or a shared bursty limiter letting more invocations and standalone permits through than its rate; distinct = distinct observation logs",
 		Assume: []string{"the race detector reports each pair of access sites once per process, so a race is attributed to the first schedule that exposes it", "the harness shares no memory between its threads except through //go:norace helpers",
 			"sequentially consistent interleavings; weak-memory reorderings of racy code are not explored"},
 		Budget: map[string]time.Duration{"quick": 150 * time.Second, "thorough": 25 * time.Minute},
